@@ -209,7 +209,9 @@ def run_check(cid: str, tier: str, seed: int) -> int:
             unmet[name] = {"have": have, "need": need}
     inconclusive = bool(unmet) or bool(crashed) or (m["evaluations"] == 0)
 
-    os.makedirs(os.path.join(VERIF_DIR, "replays"), exist_ok=True)
+    # runs against scratch checkouts (EQL_EVIDENCE_DIR set) keep their replays apart from those of /repo
+    replay_root = os.environ.get("EQL_EVIDENCE_DIR") or VERIF_DIR
+    os.makedirs(os.path.join(replay_root, "replays"), exist_ok=True)
     lines_out = []
     seen_replay = set()
     for f in violations:
@@ -220,6 +222,8 @@ def run_check(cid: str, tier: str, seed: int) -> int:
         if len(seen_replay) > MAX_VIOLATION_LINES:
             continue
         rel = os.path.join("replays", f"{cid}-{h}.json")
+        if replay_root != VERIF_DIR:
+            rel = os.path.join(replay_root, rel)
         with open(os.path.join(VERIF_DIR, rel), "w") as fh:
             json.dump({"property": cid, "seed": seed, "tier": tier, "case": f.get("case"),
                        "failure": {k: v for k, v in f.items() if k != "case"}}, fh, indent=1, default=repr)
